@@ -632,7 +632,7 @@ func (fr *Frame) havocAllHeap(st *State) {
 		}
 	}
 	for _, k := range sortedKeys(keys) {
-		if strings.HasPrefix(k, "$visited") || vc.eng.cs.Ghosts[k] != 0 && false {
+		if strings.HasPrefix(k, "$v") {
 			continue
 		}
 		if _, isGhost := vc.eng.cs.Ghosts[k]; isGhost {
